@@ -105,6 +105,16 @@ Check C05_alter_multipart :
   else Ok (fst (scan [] (concat pre ++ chunks_before bk (n - 28))), FinErr InvalidData).
 Print Assumptions C05_alter_multipart.
 
+(* the chain on the left is what the `palter` correspondence cases hand to the real readers *)
+Theorem C05_alter_parts_is_the_altered_chain :
+  forall n0 pre p later n m,
+  alter_parts (chain_nl n0 pre ++ p :: later) (length pre) n m = chain_nl n0 pre ++ xor_at p n m :: later.
+Proof. exact alter_parts_chain. Qed.
+Check C05_alter_parts_is_the_altered_chain :
+  forall n0 pre p later n m,
+  alter_parts (chain_nl n0 pre ++ p :: later) (length pre) n m = chain_nl n0 pre ++ xor_at p n m :: later.
+Print Assumptions C05_alter_parts_is_the_altered_chain.
+
 (* a byte of a length field (i < 4 inside the chunk c that `hit` finds at offset n; `after` = the chunks behind c in
    the part): detected as an error, with the same entries delivered, unless
    len_coincidence c rest i m  :=  crc_coincidence c rest (of_be (xor_at (be32 (len (cdata c))) i m)),
